@@ -143,6 +143,46 @@ class Result:
         self.theorems = []
 
 
+_protected = {}
+
+
+def _generated_files():
+    import glob
+    return sorted(glob.glob(os.path.join(COQ, "Gen", "*_src.v")) + glob.glob(os.path.join(COQ, "*", "SrcGen.v")))
+
+
+def _protect_generated():
+    """A run against another checkout (VERIF_REPO, mutation testing) regenerates the translator
+    outputs from THAT tree; put back what was there when the process ends, so that the files in
+    /verif always describe /repo (they are regenerated again by every run anyway)."""
+    if os.path.realpath(REPO) == "/repo" or _protected:
+        return
+    import atexit
+    for f in _generated_files():
+        try:
+            _protected[f] = open(f, "rb").read()
+        except OSError:
+            pass
+    _protected[""] = b""
+
+    def restore():
+        for f, data in _protected.items():
+            if not f:
+                continue
+            try:
+                if open(f, "rb").read() != data:
+                    open(f, "wb").write(data)
+            except OSError:
+                pass
+        for f in _generated_files():
+            if f not in _protected:
+                try:
+                    os.remove(f)
+                except OSError:
+                    pass
+    atexit.register(restore)
+
+
 def own_files(mod):
     """Coq sources a property builds: its COQ_DIRS, except that from the shared directory of
     generated files (Gen/) only its own Gen/<ID>_*.v count (what those import is found by make),
@@ -167,6 +207,7 @@ def proof_stage(mod, res, tier):
         return
     pre = getattr(mod, "pre_build", None)
     if pre:
+        _protect_generated()
         try:
             pre()
         except Exception as e:  # translator failed closed
